@@ -387,6 +387,44 @@ func skeletons(g *gen) (string, map[string][]string) {
 	emitList("stmts_setReadRemaining", "top-level statements of Conn.setReadRemaining", stmtsOf("Conn.setReadRemaining"))
 	emitList("stmts_handleProtocolError", "top-level statements of Conn.handleProtocolError", stmtsOf("Conn.handleProtocolError"))
 	emitList("stmts_brNetConnRead", "top-level statements of brNetConn.Read", stmtsOf("brNetConn.Read"))
+	emitList("stmts_flushFrame", "top-level statements of messageWriter.flushFrame", stmtsOf("messageWriter.flushFrame"))
+	emitList("stmts_ncopy", "top-level statements of messageWriter.ncopy", stmtsOf("messageWriter.ncopy"))
+	emitList("stmts_mwWrite", "top-level statements of messageWriter.Write", stmtsOf("messageWriter.Write"))
+	emitList("stmts_mwWriteString", "top-level statements of messageWriter.WriteString", stmtsOf("messageWriter.WriteString"))
+	emitList("stmts_mwReadFrom", "top-level statements of messageWriter.ReadFrom", stmtsOf("messageWriter.ReadFrom"))
+	emitList("stmts_mwClose", "top-level statements of messageWriter.Close", stmtsOf("messageWriter.Close"))
+	emitList("stmts_NextWriter", "top-level statements of Conn.NextWriter", stmtsOf("Conn.NextWriter"))
+	emitList("stmts_WriteMessage", "top-level statements of Conn.WriteMessage", stmtsOf("Conn.WriteMessage"))
+	emitList("stmts_WritePreparedMessage", "top-level statements of Conn.WritePreparedMessage", stmtsOf("Conn.WritePreparedMessage"))
+	emitList("stmts_connWrite", "top-level statements of Conn.write", stmtsOf("Conn.write"))
+	emitList("stmts_WriteControl", "top-level statements of Conn.WriteControl", stmtsOf("Conn.WriteControl"))
+	emitList("stmts_advanceFrame", "top-level statements of Conn.advanceFrame", stmtsOf("Conn.advanceFrame"))
+	emitList("stmts_newConn", "top-level statements of newConn", stmtsOf("newConn"))
+	emitList("stmts_preparedFrame", "top-level statements of PreparedMessage.frame", stmtsOf("PreparedMessage.frame"))
+	emitList("stmts_truncWrite", "top-level statements of truncWriter.Write", stmtsOf("truncWriter.Write"))
+	emitList("stmts_flateWrite", "top-level statements of flateWriteWrapper.Write", stmtsOf("flateWriteWrapper.Write"))
+	emitList("stmts_flateClose", "top-level statements of flateWriteWrapper.Close", stmtsOf("flateWriteWrapper.Close"))
+	emitList("stmts_flateReadClose", "top-level statements of flateReadWrapper.Close", stmtsOf("flateReadWrapper.Close"))
+	emitList("stmts_flateRead", "top-level statements of flateReadWrapper.Read", stmtsOf("flateReadWrapper.Read"))
+	emitList("stmts_ReadMessage", "top-level statements of Conn.ReadMessage", stmtsOf("Conn.ReadMessage"))
+	emitList("stmts_SetReadLimit", "top-level statements of Conn.SetReadLimit", stmtsOf("Conn.SetReadLimit"))
+	emitList("stmts_tokenListContainsValue", "top-level statements of tokenListContainsValue", stmtsOf("tokenListContainsValue"))
+	emitList("stmts_parseExtensions", "top-level statements of parseExtensions", stmtsOf("parseExtensions"))
+	emitList("stmts_nextToken", "top-level statements of nextToken", stmtsOf("nextToken"))
+	emitList("stmts_nextTokenOrQuoted", "top-level statements of nextTokenOrQuoted", stmtsOf("nextTokenOrQuoted"))
+	emitList("stmts_skipSpace", "top-level statements of skipSpace", stmtsOf("skipSpace"))
+	emitList("stmts_isValidChallengeKey", "top-level statements of isValidChallengeKey", stmtsOf("isValidChallengeKey"))
+	emitList("stmts_computeAcceptKey", "top-level statements of computeAcceptKey", stmtsOf("computeAcceptKey"))
+	emitList("stmts_selectSubprotocol", "top-level statements of Upgrader.selectSubprotocol", stmtsOf("Upgrader.selectSubprotocol"))
+	emitList("stmts_hostPortNoPort", "top-level statements of hostPortNoPort", stmtsOf("hostPortNoPort"))
+	emitList("stmts_maskBytes", "top-level statements of maskBytes", stmtsOf("maskBytes"))
+	emitList("stmts_writeFatal", "top-level statements of Conn.writeFatal", stmtsOf("Conn.writeFatal"))
+	emitList("stmts_readerClose", "top-level statements of messageReader.Close", stmtsOf("messageReader.Close"))
+	emitList("stmts_SetCloseHandler", "top-level statements of Conn.SetCloseHandler", stmtsOf("Conn.SetCloseHandler"))
+	emitList("stmts_SetPingHandler", "top-level statements of Conn.SetPingHandler", stmtsOf("Conn.SetPingHandler"))
+	emitList("stmts_SetPongHandler", "top-level statements of Conn.SetPongHandler", stmtsOf("Conn.SetPongHandler"))
+	emitList("stmts_FormatCloseMessage", "top-level statements of FormatCloseMessage", stmtsOf("FormatCloseMessage"))
+	emitList("stmts_httpProxyDial", "top-level statements of httpProxyDialer.DialContext", stmtsOf("httpProxyDialer.DialContext"))
 
 	// Upgrade's validation chain: (condition, status) of every `return u.returnError(w, r, <status>, …)`
 	var chain []string
